@@ -134,3 +134,100 @@ Example C18_ex_cluster_peak :
             settledb g = true /\ ClusterGo.census g = 5 /\ started_not_stopped (g_s g) = 2 /\
             helpers (g_s g) = 2.
 Proof. exact census_schedule_peak_runs. Qed.
+
+(* ====================================================================================== *)
+(* C18, internal/finitestate leg (subscriptions of every bundled runnable and of the supervisor's
+   state monitors).  Models: Fsm.v (the machine, the broadcast manager, the GetStateChan forwarder;
+   [Fsm.step] = the repaired forwarder `select { case wrappedCh <- s: case <-ctx.Done(): return }`,
+   [stepx false] = the unchanged code) and FsmGo.v (census: forwarders, the manager's cleanup
+   goroutines, broadcast senders; [quietb]: no internal label of any subscriber is enabled - the
+   consumer's labels LRecv / LRecvClosed are NOT internal, so nothing is assumed about consumers:
+   they may never read, read slowly or stop mid-way).  A schedule is any list of labels: any
+   sequence of machine calls, subscriptions, cancellations, deliveries, timeouts, reads.
+   Statements only. *)
+From GS Require Import Fsm FsmTable FsmGo FsmCensus.
+
+(* After a subscription's context is cancelled, in every quiescent state its forwarder and its
+   cleanup goroutine are gone - for every consumer behaviour and every transition history. *)
+Theorem C18_fsm_clean : forall cfg ls s i x,
+  run (Fsm.step cfg) Fsm.init ls = Some s -> quietb fix_fwd cfg s = true ->
+  nth_error (Fsm.subs s) i = Some x -> cancelled x = true ->
+  fwd_alive x = false /\ cln_alive x = false.
+Proof. exact fsm_cancelled_gone. Qed.
+
+(* An open subscription keeps both goroutines: nothing ends before the context does. *)
+Theorem C18_fsm_open_alive : forall cfg ls s i x,
+  run (Fsm.step cfg) Fsm.init ls = Some s -> nth_error (Fsm.subs s) i = Some x -> cancelled x = false ->
+  cln_alive x = true /\ (sg x = SLive -> fwd_alive x = true).
+Proof. exact fsm_open_alive. Qed.
+
+(* Hence in every quiescent state the forwarders (and the cleanup goroutines) are exactly the open
+   subscriptions and no broadcast sender is left: the census is 2 x (open subscriptions), whatever
+   the number of subscribe / cancel cycles and state changes so far. *)
+Theorem C18_fsm_no_accumulation : forall cfg ls s,
+  run (Fsm.step cfg) Fsm.init ls = Some s -> quietb fix_fwd cfg s = true ->
+  forwarders s = open_subs s /\ cleaners s = open_subs s /\ senders s = 0 /\
+  FsmGo.census s = 2 * open_subs s.
+Proof. exact fsm_census_exact. Qed.
+
+(* The executable form evaluated by the driver on the states its acceptor returns. *)
+Theorem C18_fsm_okb : forall cfg ls s,
+  run (Fsm.step cfg) Fsm.init ls = Some s -> quietb fix_fwd cfg s = true -> c18_okb s = true.
+Proof. exact fsm_c18_okb. Qed.
+
+(* The goroutine dump of the harness is accepted only in a state where every goroutine is blocked
+   (up to the 5 s broadcast timer) and only with the model's own numbers; a wrapper schedule is a
+   schedule of the machine model. *)
+Theorem C18_fsm_observation_sound : forall fx c g f cl b g',
+  FsmGo.gstep fx c g (GSnap f cl b) = Some g' ->
+  g' = g /\ stableb fx c (gm g) = true /\
+  f = forwarders (gm g) /\ cl = cleaners (gm g) /\ b = senders (gm g).
+Proof. exact gsnap_label_sound. Qed.
+
+Theorem C18_fsm_schedules_project : forall fx c ls g g',
+  run (FsmGo.gstep fx c) g ls = Some g' -> run (stepx fx c) (gm g) (FsmGo.erase ls) = Some (gm g').
+Proof. exact FsmCensus.grun_erase. Qed.
+
+(* The UNCHANGED forwarder (for s := range userCh { wrappedCh <- s }) is refuted: one subscription
+   whose consumer never reads, one state change, cancel - the system is quiescent, the subscription
+   is cancelled and un-registered, and its forwarder is still blocked in its send ... *)
+Theorem C18_fsm_leak_legacy_refuted :
+  exists s x, run (stepx false fsm_cfg) Fsm.init leak_witness = Some s /\
+              quietb false fsm_cfg s = true /\ nth_error (Fsm.subs s) 0 = Some x /\
+              cancelled x = true /\ unsub x = true /\ got x = [] /\
+              fwd_alive x = true /\ forwarders s = 1 /\ open_subs s = 0.
+Proof. exact leak_legacy. Qed.
+
+(* ... and such forwarders accumulate over subscribe / change / cancel cycles. *)
+Theorem C18_fsm_leak_legacy_accumulates :
+  exists s, run (stepx false fsm_cfg) Fsm.init (leak_cycle 0 ++ leak_cycle 1 ++ leak_cycle 2) = Some s /\
+            quietb false fsm_cfg s = true /\ open_subs s = 0 /\ forwarders s = 3.
+Proof. exact leak_legacy_accumulates. Qed.
+
+(* On the repaired model the same history is not quiescent (the forwarder can give up), and after
+   that step nothing is left. *)
+Theorem C18_fsm_leak_repaired :
+  run (Fsm.step fsm_cfg) Fsm.init leak_witness <> None /\
+  (forall s, run (Fsm.step fsm_cfg) Fsm.init leak_witness = Some s -> quietb fix_fwd fsm_cfg s = false) /\
+  exists s, run (Fsm.step fsm_cfg) Fsm.init (leak_witness ++ [LFwdAbort 0]) = Some s /\
+            quietb fix_fwd fsm_cfg s = true /\ forwarders s = 0 /\ FsmGo.census s = 0.
+Proof. exact leak_repaired. Qed.
+
+Print Assumptions C18_fsm_clean.
+Print Assumptions C18_fsm_open_alive.
+Print Assumptions C18_fsm_no_accumulation.
+Print Assumptions C18_fsm_okb.
+Print Assumptions C18_fsm_observation_sound.
+Print Assumptions C18_fsm_schedules_project.
+Print Assumptions C18_fsm_leak_legacy_refuted.
+Print Assumptions C18_fsm_leak_legacy_accumulates.
+Print Assumptions C18_fsm_leak_repaired.
+
+(* non-vacuity: three subscribe / cancel cycles during a transition burst - an absent consumer (its
+   forwarder gives up), a consumer that reads one value and stops, a consumer that drains and sees
+   the close - then a fourth subscription stays open: quiescent, 4 subscriptions made, 1 open,
+   census 2 (its forwarder and its cleanup goroutine). *)
+Example C18_ex_fsm_cycles :
+  exists s, run (Fsm.step fsm_cfg) Fsm.init census_run = Some s /\ quietb fix_fwd fsm_cfg s = true /\
+            length (Fsm.subs s) = 4 /\ open_subs s = 1 /\ forwarders s = 1 /\ FsmGo.census s = 2.
+Proof. exact census_run_ok. Qed.
